@@ -36,16 +36,28 @@ theorem pollLeader_closeSvc (s : State) (c key k : Nat) :
     pollLeader (closeSvc s) c key k = closeSvc (pollLeader s c key k) := by
   unfold pollLeader
   show (match lookup s.doneAt c, lookup s.script c with
-        | some t, some sc => if s.now ≥ t ∧ sc.out ≠ Out.never then finishLeader (closeSvc s) c key k sc.out else closeSvc s
+        | some t, some sc =>
+            if s.now ≥ t ∧ sc.out ≠ Out.never then
+              if s.bomb.contains c ∧ sc.out ≠ Out.panic then clonePanic (closeSvc s) c key k sc.out
+              else finishLeader (closeSvc s) c key k sc.out
+            else closeSvc s
         | _, _ => closeSvc s) = _
   generalize lookup s.doneAt c = a
   generalize lookup s.script c = b
   cases a <;> cases b <;> try rfl
   rename_i t sc
-  show (if s.now ≥ t ∧ sc.out ≠ Out.never then finishLeader (closeSvc s) c key k sc.out else closeSvc s)
-     = closeSvc (if s.now ≥ t ∧ sc.out ≠ Out.never then finishLeader s c key k sc.out else s)
+  show (if s.now ≥ t ∧ sc.out ≠ Out.never then
+          if s.bomb.contains c ∧ sc.out ≠ Out.panic then clonePanic (closeSvc s) c key k sc.out
+          else finishLeader (closeSvc s) c key k sc.out
+        else closeSvc s)
+     = closeSvc (if s.now ≥ t ∧ sc.out ≠ Out.never then
+          if s.bomb.contains c ∧ sc.out ≠ Out.panic then clonePanic s c key k sc.out
+          else finishLeader s c key k sc.out
+        else s)
   split
-  · exact finishLeader_closeSvc ..
+  · split
+    · rfl
+    · exact finishLeader_closeSvc ..
   · rfl
 
 theorem pollWaiter_closeSvc (s : State) (c l : Nat) :
@@ -68,6 +80,7 @@ theorem stepS_closeSvc_comm (s : State) (op : Op) (h : op.isArrive = false) :
   | arrive c key sc cp => simp [Op.isArrive] at h
   | adv ms => rfl
   | dropsvc => rfl
+  | bomb c => rfl
   | poll c =>
     simp only [stepS]
     show (if s.gone.contains c then closeSvc s else
